@@ -29,14 +29,19 @@ Transients one compound transition  transient -> (conj!|assoc!|dissoc!|disj!|pop
            transient and a second persistent! -- those may raise or succeed, but no
            persistent value may change.
 
-Layers (per collection type and initial state)
-  core    every history of length N over the core alphabet, NO merging (every history is a
-          state of its own);
-  wide    every history of length Nw in which any ONE step ranges over the wide alphabet
-          (every argument combination; every !-string of length <= 3 over the transient
-          alphabet x every stale follow-up) and the other steps over the core alphabet;
-  merged  every history of length 5 (vector, map; the other types too in thorough) over the
-          core alphabet with canonical-state merging.
+Layers (per collection type and initial state; what the plan deviates from DESIGN.md: one
+transition costs 150-400 us because every transition re-reads the whole pool and evaluates `=`
+-- a Python-level walk in basilisp -- against every pool entry, so the alphabet that goes to full
+depth is kept at about a dozen operations and everything else is explored one step at a time)
+  core    every history of length N (3 quick / 4 thorough) over the core alphabet, NO merging
+          (every history is a state of its own);
+  wide    every history of length Nw (2 / 3) in which any ONE step ranges over the wide
+          alphabet (every argument combination; into / merge from any pool entry; every
+          !-string of length <= 3 over the transient alphabet x every stale follow-up; the same
+          strings with a persistent operation applied to the source while the transient is open)
+          and the other steps over the core alphabet;
+  deep    every history of length 5 (4 quick) for vector and map over the 7 operations most
+          involved in structural sharing, with canonical-state merging.
 
 Correctness argument for the merge.  The canonical key of a pool is the multiset of the
 *construction terms* of its entries: term(initial) = 0, term(result) = (term of the picked
@@ -61,7 +66,6 @@ from __future__ import annotations
 
 import gc
 import itertools
-import os
 
 from vlib import bfs, env
 from vlib.evidence import Result
@@ -69,11 +73,14 @@ from vlib.evidence import Result
 PROPERTY = "C04"
 LEVEL = "model_checking"
 BOUNDS = {
-    "quick": "5 types x 25 initial states (vector 0/1/32/33/1056/1057; map, set 0/1/8/17/3-way collision bucket; list, queue 0/1/3): "
-    "core: every history of length 3, unmerged; wide: every history of length 2 with one wide step; merged: every history of length 4 "
-    "(vector, map) with canonical-state merging",
-    "thorough": "same initial states: core: every history of length 4, unmerged; wide: every history of length 3 with one wide step "
-    "(length 2 for the 1056/1057 vectors); merged: every history of length 5 for all five types (canonical-state merging)",
+    "quick": "5 types x 25 initial states (vector of 0/1/32/33/1056/1057 elements; map and set of 0/1/8/17 entries and a 3-way "
+    "hash-collision bucket; list and queue of 0/1/3): core: every history of length 3 over the core alphabet (12-14 operations per type, "
+    "7 for list/queue), unmerged; wide: every history of length 2 in which one step ranges over the wide alphabet (all arguments, every "
+    "!-string of length <= 2 x every stale follow-up, interleaved transients, into/merge from any pool entry); deep: every history of "
+    "length 4 over the 7-operation deep alphabet for vector and map, merged by construction terms",
+    "thorough": "same initial states: core: every history of length 4, unmerged; wide: every history of length 2 with one wide step "
+    "(!-strings <= 3) and, except for the 1056/1057 vectors, of length 3 with one wide step (!-strings <= 1); deep: every history of "
+    "length 5 over the deep alphabet for vector and map, merged by construction terms",
 }
 RULE = (
     "engine B: state = pool of every value produced so far; transition = (pick any pool entry, one operation of conj assoc dissoc disj "
@@ -94,6 +101,10 @@ ASSUMPTIONS = [
     "against an entry of equal length only for with-meta / vary-meta results and their original; hash is always compared",
     "`=` between the new value and a pool entry with a different model is evaluated in one argument order, with an equal model in both",
     "into / merge take as source a fixed small collection or any pool entry with at most 64 elements",
+    "sibling histories share their live values, so the exploration of one (type, initial state, layer) is one large branching history "
+    "over one pool; a failure is re-run alone on fresh values before it is reported, and one that only shows in the shared exploration "
+    "is reported as result-depends-on-sibling-history; a defect that shows only when NO other operation was ever applied to the same "
+    "objects would be missed",
 ]
 
 BIG = 64
@@ -208,10 +219,6 @@ def build(kind, model, meta=None):
     return U.lmap.map(dict(model), meta=meta)
 
 
-def size_of(model):
-    return len(model)
-
-
 # --------------------------------------------------------------------------- alphabets
 
 
@@ -263,6 +270,8 @@ CORE = {
     "queue": [("conj", 1), ("conj", None), ("pop",), ("empty",), ("with-meta", "m1"), ("vary-meta",), ("into", "c")],
 }
 
+MID = {"vector": ("conj", 0), "map": ("assoc", "k0", 0), "set": ("conj", "k0")}  # the interleaved persistent operation of "ti"
+
 DEEP = {
     # the operations most involved in structural sharing, for the length-5 search with merging
     "vector": [
@@ -298,6 +307,8 @@ def wide_fixed(kind, tlen):
         for k in range(tlen + 1):
             for ops in itertools.product(atoms, repeat=k):
                 a += [("t", ops, s) for s in stale]
+                if k:
+                    a.append(("ti", ops))  # a persistent operation on the source while the transient is open
     _WIDE_CACHE[kind, tlen] = a
     return a
 
@@ -427,7 +438,7 @@ def model_bang(kind, b, model):
 
 
 def model_action(kind, a, model, pool):
-    if a[0] != "t":
+    if a[0] not in ("t", "ti"):
         return model_op(kind, a, model, pool)
     for b in a[1]:
         model = model_bang(kind, b, model)
@@ -470,9 +481,12 @@ def impl_action(kind, a, val, model, pool, notes):
     """Apply action `a` to the real value.  Returns the result (exceptions propagate)."""
     op = a[0]
     K = U.KEY
-    if op == "t":
+    if op in ("t", "ti"):
         t = U.transient(val)
         m = model
+        if op == "ti":
+            side = impl_action(kind, MID[kind], val, model, pool, notes)
+            notes.append(("side", side, model_op(kind, MID[kind], model, pool)))
         for b in a[1]:
             t = impl_bang(kind, b, t, len(m))
             try:
@@ -480,7 +494,7 @@ def impl_action(kind, a, val, model, pool, notes):
             except Undef:
                 pass
         p = U.persistent(t)
-        if a[2] is not None:
+        if op == "t" and a[2] is not None:
             try:
                 t2 = impl_bang(kind, a[2], t, len(m))
                 notes.append("stale-ok")
@@ -556,8 +570,8 @@ def read_all(kind, v):
 def light_check(kind, entry):
     """Re-read one pool entry completely; returns None or a description of the change."""
     v, model, meta, h = entry[0], entry[1], entry[2], entry[3]
-    if len(v) != len(model):
-        return ("count", len(v), len(model))
+    if U.count(v) != len(model):
+        return ("count", U.count(v), len(model))
     got = read_all(kind, v)
     if got != model:
         return ("content", short(got), short(model))
@@ -700,14 +714,16 @@ class State:
 class Unit:
     """One exploration: (kind, initial state, layer, depth, shard)."""
 
-    def __init__(self, kind, init, layer, depth, shard=0, nshards=1, res=None, tlen=3):
+    def __init__(self, kind, init, layer, depth, shard=0, nshards=1, res=None, tlen=3, verify=True, stop_at=None):
         U.init()
         self.kind, self.init, self.layer, self.depth, self.tlen = kind, init, layer, depth, tlen
         self.shard, self.nshards = shard, nshards
         self.res = res if res is not None else Result()
         self.terms = {}
         self.nfail = 0
-        self.meta_policy = {}
+        self.nsteps = 0
+        self.verify = verify  # re-run a failing history on fresh values before reporting it
+        self.stop_at = stop_at  # replay: stop after this many transitions
         model = init_model(kind, init)
         v = build(kind, model, meta=U.M0)
         self.root = State(((v, model, {U.KW_I: 0}, U.hash(v), 0),), (), -1)
@@ -723,8 +739,22 @@ class Unit:
         return {"family": f"{self.kind}/{self.init}", "kind": self.kind, "init": self.init, "history": hist}
 
     def fail(self, what, state, pick, a, **kw):
+        """Report a failure.  Sibling histories share their live values (they are persistent -- that is the
+        property), so the exploration as a whole is one big branching history over one pool.  A failure is first
+        re-run alone on fresh values; if it does not show there, the result of the failing operation depends on
+        operations that *sibling* histories applied to the same objects earlier (hidden state inside a value): still
+        a violation ("no operation ever changes a value obtained earlier"), reported under its own kind and
+        replayed by re-running this unit's deterministic search up to the failing transition."""
         self.nfail += 1
-        self.res.fail(what, self.case(state, pick, a), **kw)
+        case = self.case(state, pick, a)
+        if self.verify and a is not None:
+            alone = run_history(self.kind, self.init, case["history"])
+            if not any(f["kind"] == what for f in alone["failures"]):
+                kw["first_seen_as"] = what
+                what = "result-depends-on-sibling-history"
+                case["unit"] = [self.kind, self.init, self.layer, self.depth, self.tlen, self.shard, self.nshards]
+                case["at_transition"] = self.nsteps
+        self.res.fail(what, case, **kw)
         if self.nfail >= MAX_FAIL_PER_UNIT:
             raise bfs.Abort(f"{MAX_FAIL_PER_UNIT} failures in this unit")
 
@@ -763,10 +793,13 @@ class Unit:
     def step(self, state, pia):
         pick, ai, a, wide_only = pia
         kind, pool, res = self.kind, state.pool, self.res
+        self.nsteps += 1
+        if self.stop_at is not None and self.nsteps > self.stop_at:
+            raise bfs.Abort("replay: reached the recorded transition")
         entry = pool[pick]
         val, model, pmeta = entry[0], entry[1], entry[2]
         res.evaluations += 1
-        res.transitions += 1 + (len(a[1]) + 2 + (2 if a[2] else 0) if a[0] == "t" else 0)
+        res.transitions += 1 + (len(a[1]) + 2 + (2 if a[-1] else 0) if a[0] in ("t", "ti") else 0)
         try:
             exp = model_action(kind, a, model, pool)
         except Undef:
@@ -777,6 +810,8 @@ class Unit:
             raised = None
         except Exception as e:  # noqa
             got, raised = None, e
+        sides = [nt for nt in notes if not isinstance(nt, str)]
+        notes = [nt for nt in notes if isinstance(nt, str)]
         for nt in notes:
             res.outcomes.add((kind, "t", nt))
         new_entry = None
@@ -784,20 +819,30 @@ class Unit:
             if raised is not None:
                 res.outcomes.add((kind, a[0], "undefined-raises", type(raised).__name__))
             else:
-                ok_empty = a[0] == "pop" and type(got) is type(val) and len(got) == 0
+                ok_empty = a[0] == "pop" and type(got) is type(val) and U.count(got) == 0
                 res.outcomes.add((kind, a[0], "undefined-returns-empty" if ok_empty else "undefined-returns"))
         elif raised is not None:
             self.fail("op-raises", state, pick, a, exc=type(raised).__name__, msg=str(raised)[:200])
         else:
             new_entry = self.check_new(state, pick, a, got, exp, pmeta)
+        for _, side, side_model in sides:
+            # result of the persistent operation applied to the source while its transient was open, read after persistent!
+            try:
+                sc = read_all(kind, side)
+            except Exception as e:  # noqa
+                sc = ("raises", type(e).__name__)
+            if sc != side_model:
+                self.fail("interleaved-result-differs-from-model", state, pick, a, got=short(sc), expected=short(side_model))
+                new_entry = False if new_entry is not None else None
         # (b) every pool entry is re-read, whatever happened above
         for j, e in enumerate(pool):
             ch = light_check(kind, e)
             if ch is not None:
-                self.res.fail(
-                    "earlier-value-changed", self.case(state, pick, a), entry=j, change=ch,
-                    role="picked" if j == pick else "other", notes=notes,
-                )
+                try:
+                    self.fail("earlier-value-changed", state, pick, a, entry=j, change=ch,
+                              role="picked" if j == pick else "other", notes=notes)
+                except bfs.Abort:
+                    pass
                 raise bfs.Abort("an earlier value changed (shared live values are damaged)")
         if new_entry is None:
             return None
@@ -814,7 +859,7 @@ class Unit:
         kind, pool, res = self.kind, state.pool, self.res
         try:
             content = read_all(kind, got)
-            bad = [] if content == exp and len(got) == len(exp) else [("content", short(content), short(exp))]
+            bad = [] if content == exp else [("content", short(content), short(exp))]
             bad += full_check(kind, got, exp)
         except Exception as e:  # noqa
             bad = [("observation-raises", type(e).__name__, str(e)[:200])]
@@ -995,10 +1040,12 @@ def run_history(kind, init, hist, res=None):
     """Re-execute one history from scratch with all checks; returns {'failures': [...], 'pool': [...]}."""
     from basilisp.lang import runtime
 
-    unit = Unit(kind, init, "replay", len(hist), res=res or Result())
+    unit = Unit(kind, init, "replay", len(hist), res=res or Result(), verify=False)
     state = unit.root
     try:
         for pick, a in hist:
+            if pick >= len(state.pool):
+                break  # an earlier step failed and produced no value
             a = action_from_json(a)
             s2 = unit.step(state, (pick, None, a, False))
             if s2 is not None:
@@ -1013,9 +1060,18 @@ def run_history(kind, init, hist, res=None):
 
 
 def replay(failure):
-    """Re-execute the failing history on fresh values; returns the failure again iff it still fails."""
+    """Re-execute the failing history on fresh values (or, for a failure that needs the sibling histories, the unit's
+    search up to the failing transition); returns the failure again iff it still fails."""
     U.init()
     case = failure["case"]
+    if "at_transition" in case:
+        kind, init, layer, depth, tlen, shard, nshards = case["unit"]
+        unit = Unit(kind, init, layer, depth, shard, nshards, tlen=tlen, verify=False, stop_at=case["at_transition"])
+        unit.run()
+        for f in unit.res.failures:
+            if f["kind"] == failure.get("first_seen_as") and f["case"]["history"] == case["history"]:
+                return f
+        return None
     out = run_history(case["kind"], case["init"], case["history"])
     for f in out["failures"]:
         if f["kind"] == failure["kind"]:
